@@ -1,7 +1,7 @@
 (* C06 — Every valid RFC 9535 query is accepted by the parser.  Statements only.
    The whole-language statement is kept visible and is NOT proved (partial): *)
 From Coq Require Import List NArith ZArith Bool.
-From JP Require Import Base Ast Peg Dec2Bin Known Build Concrete BuildFacts NormPath Reference NpParse NpBuild.
+From JP Require Import Base Ast Peg Dec2Bin Known Build Concrete BuildFacts NormPath Reference NpParse NpBuild FragParse FragBuild.
 From JP.gen Require Import Grammar.
 Import ListNotations.
 
@@ -40,6 +40,30 @@ Proof.
   split; [repeat constructor|]. split; [repeat constructor; unfold MAX_VAL; cbn; discriminate|].
   vm_compute. reflexivity.
 Qed.
+
+(* proved part, whole pipeline: the entire FILTER-FREE sublanguage in its canonical compact spelling.
+   A query is a list of segments (FragParse.fseg): bracketed selections [s1,...,sn] (n >= 1), shorthand
+   .name, .*, and their descendant forms ..[...], ..name, ..*; a selector (fsel) is a single-quoted name of
+   unescaped scalar values, *, an index, or a slice with any subset of its three parts.  For every such
+   query, of any length, with any integers in the I-JSON range, the PEG interpreter over the grammar of
+   THIS run followed by the model of parser.rs returns exactly its AST (FragBuild.parse_frag: symbolic
+   execution with the deterministic rules of PegFacts.v; every backtracking step of the ordered choices --
+   e.g. slice-selector tried and abandoned before index-selector -- is part of the proof). *)
+Theorem C06_filter_free_partial : forall q,
+  Forall seg_ok q -> Forall seg_range q -> parse_query (36%N :: segs_text q) = POk (query_ast q).
+Proof. exact parse_frag. Qed.
+Print Assumptions C06_filter_free_partial.
+
+(* $..book[0,1:3,-1:]['a b'].*..[*][::-2] *)
+Example C06_filter_free_example :
+  let q := [FDescShort [98; 111; 111; 107]%N;
+            FBracket (FIndex 0) [FSlice (Some 1) (Some 3) None; FSlice (Some (-1)) None None]%Z;
+            FBracket (FName [97; 32; 98]%N) []; FDotWild; FDescBracket FWild [];
+            FBracket (FSlice None None (Some (-2))%Z) []] in
+  segs_text q = [46;46;98;111;111;107; 91;48;44;49;58;51;44;45;49;58;93; 91;39;97;32;98;39;93; 46;42;
+                 46;46;91;42;93; 91;58;58;45;50;93]%N
+  /\ parse_query (36%N :: segs_text q) = POk (query_ast q).
+Proof. vm_compute. split; reflexivity. Qed.
 
 (* the parser model, over the grammar generated from the .pest file of this run, accepts the
    RFC's own examples and builds the reference AST (evaluated inside Coq: a test, not the
